@@ -1,0 +1,78 @@
+//go:build verif
+
+// Verification hooks (build tag "verif"): let an external harness construct a
+// Server without starting its background goroutine and step the health check
+// deterministically. Add-only; not compiled into normal builds.
+
+package server
+
+import (
+	"fmt"
+	"time"
+
+	"github.com/sassoftware/relic/v8/config"
+	"github.com/sassoftware/relic/v8/internal/authmodel"
+	"github.com/sassoftware/relic/v8/internal/realip"
+	"github.com/sassoftware/relic/v8/token"
+)
+
+// VerifNew is New without starting healthCheckLoop. Tokens are opened through
+// the normal openTokens path (token.Openers), so a harness registers its fake
+// token type there.
+func VerifNew(config *config.Config) (*Server, error) {
+	closed := make(chan bool)
+	auth, err := authmodel.New(config)
+	if err != nil {
+		return nil, fmt.Errorf("configuration authentication: %w", err)
+	}
+	realIP, err := realip.Middleware(config.Server.TrustedProxies)
+	if err != nil {
+		return nil, err
+	}
+	s := &Server{
+		Config:  config,
+		Closed:  closed,
+		closeCh: closed,
+		auth:    auth,
+		realIP:  realIP,
+		tokens:  make(map[string]token.Token),
+	}
+	if err := s.openTokens(); err != nil {
+		for _, t := range s.tokens {
+			t.Close()
+		}
+		return nil, err
+	}
+	healthMu.Lock()
+	healthStatus = s.Config.Server.TokenCheckFailures
+	healthLastPing = time.Now()
+	healthMu.Unlock()
+	return s, nil
+}
+
+// VerifHealthCheck runs one iteration of the periodic health check.
+func (s *Server) VerifHealthCheck() bool { return s.healthCheck() }
+
+// VerifHealthLoop runs the real healthCheckLoop and closes done when it returns.
+func (s *Server) VerifHealthLoop(done chan<- struct{}) {
+	s.healthCheckLoop()
+	close(done)
+}
+
+// VerifHealthState reads the shared health counters.
+func VerifHealthState() (int, time.Time) {
+	healthMu.Lock()
+	defer healthMu.Unlock()
+	return healthStatus, healthLastPing
+}
+
+// VerifSetHealthLastPing moves the time of the last completed check.
+func VerifSetHealthLastPing(t time.Time) {
+	healthMu.Lock()
+	defer healthMu.Unlock()
+	healthLastPing = t
+}
+
+// VerifTokens exposes the opened tokens by name.
+func (s *Server) VerifTokens() map[string]token.Token { return s.tokens }
+
